@@ -757,6 +757,26 @@ func (w *world) checkCookieLine(line string, rs reqSpec) {
 	} else if _, ok := attrs["expires"]; !ok {
 		// a session cookie (no lifetime) is fine
 	}
+	if _, ok := attrs["domain"]; ok {
+		fail("Set-Cookie with a Domain attribute")
+	}
+	// C09: what the value discloses without the key (every flow: initiation, callback, refresh, logout, recovery)
+	if T.prop == "C09" || T.prop == "C18" || w.step%7 == 0 {
+		val := line[len(name)+1:]
+		if i := strings.IndexByte(val, ';'); i >= 0 {
+			val = val[:i]
+		}
+		if val != "" {
+			secrets := []string{"user@example.com", "admin@corp.test"}
+			for v := range w.syms {
+				secrets = append(secrets, v)
+			}
+			for raw := range w.toks {
+				secrets = append(secrets, raw)
+			}
+			keylessCheck("C09", name, val, secrets, w.replay)
+		}
+	}
 }
 
 func trunc(s string, n int) string {
